@@ -117,8 +117,12 @@ func (t *ReuseConnTransport) exchangeConnCtx(ctx context.Context, payload []byte
 	}
 	resChan := make(chan res, 1)
 
+	// The worker may outlive this call (ctx.Done()), and the caller releases
+	// payload when we return. Give the worker its own copy.
+	workerPayload := pool.CopyBuf(payload)
 	go func() {
-		resp, err := t.exchangeConn(payload, c)
+		resp, err := t.exchangeConn(workerPayload, c)
+		pool.ReleaseBuf(workerPayload)
 		resChan <- res{m: resp, err: err}
 		t.releaseConn(c, err)
 	}()
